@@ -85,24 +85,21 @@ Definition format_json_files (files : list (text * list record)) : text :=
                                        (T "__filename__", JStr (fst pf))]) files)).
 
 (** ** Standard format ([format_output_standard]) *)
+Definition is_sentinel (r : record) : bool :=
+  match r with [(k, _)] => text_eqb k (T "0") | _ => false end.
+(** every record is a whole buffer (one per line with [--linewise]) *)
 Definition no_fields_extracted (recs : list record) : bool :=
-  match recs with
-  | [[(k, _)]] => text_eqb k (T "0")
-  | _ => false
-  end.
+  negb (is_nil recs) && forallb is_sentinel recs.
 
 Definition ends_nl (s : text) : bool :=
   match rev s with 10 :: _ => true | _ => false end.
 
+Definition std_line (delim : text) (r : record) : text :=
+  let line := join delim (map snd r) in if ends_nl line then line else line ++ [10].
+
 Definition format_standard (delim : text) (recs : list record) : text :=
-  match recs with
-  | [[(k, v)]] =>
-    if text_eqb k (T "0") then v
-    else if ends_nl v then v else v ++ [10]
-  | _ =>
-    flat_map (fun r => let line := join delim (map snd r) in
-                       if ends_nl line then line else line ++ [10]) recs
-  end.
+  if no_fields_extracted recs then flat_map (fun r => flat_map snd r) recs
+  else flat_map (std_line delim) recs.
 
 (** ** Template format ([format_output_template]) *)
 Fixpoint lookup (name : text) (r : record) : option text :=
